@@ -164,11 +164,19 @@ def run(idx, rep, tier):
                     break
         asg = df.assignments(f.node)
         lm = table.get("LM", [])
-        lm0 = lm[0] if lm else ""
-        if lm0 in asg and len(asg[lm0]) == 1:
-            lm0 = nospace(asg[lm0][0][0])
+
+        def alts(e, depth=0):
+            """the values an expression may take: both sides of a conditional expression, every binding of a local name"""
+            if isinstance(e, ast.IfExp):
+                return alts(e.body, depth) | alts(e.orelse, depth)
+            if isinstance(e, ast.Name) and e.id in asg and depth < 4:
+                return set().union(*[alts(v, depth + 1) for v, p_, st_ in asg[e.id]])
+            return {nospace(e)}
+        lm_call = next((c for c in df.body_nodes(f.node) if isinstance(c, ast.Call) and nospace(c.func) == "slice" and [nospace(a) for a in c.args] == lm), None)
+        lm_start = alts(lm_call.args[0]) if lm_call is not None and lm_call.args else set()
         ok_sm = table.get("SM", [None, None])[:2] == ["0", num] or table.get("SM", [None, None])[:2] == ["None", num]
-        ok_lm = bool(lm) and (lm0 in (f"-{num}", f"-1if{num}isNoneelse-{num}")) and lm[1:2] == ["None"]
+        # the last k entries: the start is -k (and -1 only as the stand-in for an unspecified k)
+        ok_lm = bool(lm) and f"-{num}" in lm_start and lm_start <= {f"-{num}", "-1"} and lm[1:2] == ["None"]
         rep.decide(ok_sm and ok_lm, "selection", "get_slice", f"SM -> slice({', '.join(table.get('SM', []))}), LM -> slice({', '.join(lm)})" + ("" if ok_sm and ok_lm else "; required SM = first k, LM = last k"),
                    detail="" if ok_sm and ok_lm else "slice", locs=[idx.loc(f.module, f.node)])
     # ---- every eig rule
@@ -188,6 +196,22 @@ def run(idx, rep, tier):
             ok = any(isinstance(st, ast.Assert) and nospace(st.test) in (f"{kp}==1and{wp}=='LM'", f"{wp}=='LM'and{kp}==1") for st in fi.node.body)
             rep.decide(ok, "power-iteration", construct, "refuses anything but k = 1, which = 'LM'" if ok else "does not refuse other (k, which) requests", detail="" if ok else "contract", locs=[rule.loc])
             continue
+        # ---- DTYPE: the eigenvectors of a general matrix are complex (conjugate pairs of a real matrix): no exit may convert the
+        # output of the general dense decomposition to the operator's own dtype
+        from sa.dtype import DType
+        dt = DType(idx, None, op_names={rule.params[0][0]})
+        for r in [r for r in df.returns(fi.node) if r.value is not None]:
+            dt.eval_in(fi, r.value)
+        seen_cast = set()
+        for node_, f_, val, tgt, lost in dt.casts:
+            if id(node_) in seen_cast or "complexified" not in val:
+                continue
+            seen_cast.add(id(node_))
+            narrowed = "complexified" in lost
+            rep.decide(not narrowed, "complex-eigenvectors", f"{construct}:cast", f"`{ast.unparse(node_)[:70]}` converts the output of the general eigen-decomposition to " +
+                       ("a dtype that is complex whenever that output is" if not narrowed else
+                        "the operator's dtype: for a real operator with complex-conjugate eigenvalue pairs the imaginary parts of the eigenvectors are discarded (A v != lambda v)"),
+                       detail="" if not narrowed else "real-cast", locs=[idx.loc((f_ or fi).module, node_)])
         # ---- TERM: the matrix handed to the dense backend decomposition is A itself (eigh: under H(A) = A, its contract)
         from sa.term import TermEval, equal, norm as tnorm, opaque_text, show as tshow, sym
         a = rule.params[0][0]
@@ -357,9 +381,20 @@ def triangular_orientation(idx, rep, rule):
                 return data_orient(e.orelse if flag else e.body, flag)
             return None
         if isinstance(e, ast.Name):
-            vals = [v for v, p, st in asg.get(e.id, []) if p is None and not isinstance(v, ast.AugAssign)]
-            if len(vals) == 1:
-                return data_orient(vals[0], flag)
+            # the bindings that can hold when A.lower == flag (a binding under `if A.lower:` / its else holds for one value only)
+            vals = []
+            for v, p, st in asg.get(e.id, []):
+                if p is not None or isinstance(v, ast.AugAssign):
+                    continue
+                compatible = True
+                for t_, pol in df.branch_conditions(st, fi.node):
+                    if nospace(t_) == f"{a}.lower" and pol != flag:
+                        compatible = False
+                if compatible:
+                    vals.append(v)
+            os_ = {data_orient(v, flag) for v in vals}
+            if len(os_) == 1:
+                return os_.pop()
         return None
 
     n = 0
